@@ -149,6 +149,14 @@ theorem c12_popen_drop_holds_nothing (c0 : Cfg) (h : AllStart c0) (hn : c0.n = 1
   · rw [hn1] at ho ⊢; exact Or.inr (by simp [popenEnds, hn1, ho])
   · exact Or.inr (by simp [popenEnds, hE])
 
+/-- **C12 (nothing is left open).**  When all commands start, then after the terminator has returned and the
+    handle it returned has been dropped the parent holds none of the pipe ends the library created -- for every
+    terminator, every length and every stream configuration (the partial-start case is `c14_partial_start_cleans_up`). -/
+theorem c12_nothing_left_open (c0 : Cfg) (t : Term) (h : AllStart c0) (hn : 0 < c0.n) :
+    heldAfter Held.empty (run c0 t) = Held.empty := by
+  unfold run
+  exact ok_final_empty _ t (effective_allStart c0 t h) (by rw [effective_n]; exact hn)
+
 /-! Non-vacuity (tests, labelled as tests) -/
 example : (run { n := 3, det := fun j => j = 1, sin := .inherit, sout := .inherit, serr := .inherit, errTo := false,
                  failAt := none } .streamStdout).filterMap waitIdx = [0, 2] := by decide
